@@ -11,7 +11,7 @@ configure(factory, params, how)   estimator with hyper-parameters `params`:
    `other` = the constructor defaults (or the `decoy` parameters given), so that a value captured at construction
    time shows.
 carry(est, how)                   same | deepcopy | pickle : the object that the next call is made on
-present(A, how)                   C | F | strided | readonly | list : the same numbers in another container
+present(A, how)                   C | F | strided | readonly | list | negstride | bigendian : the same numbers in another container
 clobber(*arrays)                  the caller re-uses its own buffers after the call: every writable array is overwritten
                                   in place (what the model needs later it must have kept for itself)
 """
@@ -26,13 +26,13 @@ import numpy as np
 RULE_SUFFIX = (
     "Routes (drawn per case / per fit, each with a floor on its counter where the module lists one): the estimator is "
     "configured by constructor | set_params | attribute assignment | clone; the numbers arrive in C | Fortran | strided | "
-    "read-only | list containers (integer-typed where whole-number data are drawn); fitted through fit or fit_transform "
+    "read-only | list | negative-stride | non-native-byte-order containers (integer-typed where whole-number data are drawn); fitted through fit or fit_transform "
     "where both exist; used afterwards as the same object | its deep copy | its unpickled copy; the caller's buffers may be "
     "overwritten after fit."
 )
 CONFIGURE = ("ctor", "ctor", "set_params", "setattr", "clone")
 CARRY = ("same", "same", "deepcopy", "pickle")
-PRESENT = ("C", "C", "F", "strided", "readonly", "list")
+PRESENT = ("C", "C", "F", "strided", "readonly", "list", "negstride", "bigendian")
 
 
 def configure(factory, params, how="ctor", decoy=None, j=None):
@@ -92,6 +92,11 @@ def present(A, how="C"):
         return B
     if how == "list":
         return A.tolist()
+    if how == "negstride":  # the same numbers seen through negative strides (what X[::-1] of a reversed copy is)
+        B = np.ascontiguousarray(A)[tuple(slice(None, None, -1) for _ in range(A.ndim))].copy()
+        return B[tuple(slice(None, None, -1) for _ in range(A.ndim))]
+    if how == "bigendian":  # non-native byte order (data read from a file written elsewhere)
+        return np.ascontiguousarray(A).astype(A.dtype.newbyteorder(">")) if A.dtype.kind in "fiu" else np.ascontiguousarray(A).copy()
     raise ValueError(how)
 
 
